@@ -98,7 +98,7 @@ type c04Result struct {
 	Stages   [][]c04Rule `json:"stages"`     // AST after each prefix of the pipeline (1..n optimizers)
 	StageErr []string    `json:"stage_errs"` // error text per stage ("" = ok)
 	Names    []string    `json:"stage_names"`
-	Outs     []c04Out    `json:"outs"` // every outbound of the raw list: printed form used by merge, parsed meaning
+	Outs     []c04Out    `json:"outs"` // per raw rule: printed form of its outbound as merge sees it, parsed meaning (routing.ParseOutbound)
 	RawBuild string      `json:"raw_build_err,omitempty"`
 	OptBuild string      `json:"opt_build_err,omitempty"`
 	DecRaw   []string    `json:"dec_raw"`
@@ -367,15 +367,8 @@ func c04Run(cs *c04Case, tmpRoot string) (res c04Result) {
 		}
 	}
 	res.Raw = c04Dump(raw)
-	seen := map[string]bool{}
 	for _, r := range raw {
-		pr := r.Outbound.String(true, false, true)
-		key := pr + "\x00" + fmt.Sprint(c04Params(r.Outbound.Params))
-		if seen[key] {
-			continue
-		}
-		seen[key] = true
-		o := c04Out{Print: pr}
+		o := c04Out{Print: r.Outbound.String(true, false, true)}
 		ob := r.Outbound
 		if parsed, err := routing.ParseOutbound(&ob); err != nil {
 			o.Err = err.Error()
